@@ -24,6 +24,14 @@ inductive G where
   /-- `Kron<X, CX>` on `[a, b, c]` (X on a, CX b→c) and `Kron<CX, X>` on `[a, b, c]` (CX a→b, X on c): products of
   factors of DIFFERENT width -/
   | kxcx | kcxx
+  /-- USER-DEFINED gates of the harness (structs that only provide `matrix()`, so every `apply*` route is the default
+  of the `Gate` trait): the cyclic increment `|k⟩ ↦ |k+1 mod 2^n⟩` on `n = 2, 3, 4` qubits, first operand = most
+  significant bit of `k` (a basis permutation whose matrix is NOT symmetric) ... -/
+  | inc2 | inc3 | inc4
+  /-- ... and the library's combinators around it: `C<Inc_n>` on `a :: bits` (control `a`), `Kron<X, Inc_n>` on
+  `a :: bits`, `Kron<Inc_n, X>` on `bits ++ [a]`, `Composite(4){X on [3]; Inc_3 on [1, 2, 0]}` and
+  `Loop(2){Composite(3){Inc_3 on [2, 0, 1]}}` -/
+  | cinc2 | cinc3 | kxinc2 | kxinc3 | kinc2x | kinc3x | compxinc3 | loopinc3
 deriving DecidableEq, Repr
 
 inductive Op where
@@ -78,6 +86,11 @@ def buildAll (nq nc : Nat) : List Op → Res Unit
 
 def flipAt (qs : List Bool) (q : Nat) : List Bool := qs.set q (!qs.getD q false)
 
+/-- ripple increment of the number whose binary digits are the qubits `bits`, LEAST significant first -/
+def incAt : List Nat → List Bool → List Bool
+  | [], qs => qs
+  | b :: rest, qs => if qs.getD b false then incAt rest (flipAt qs b) else flipAt qs b
+
 /-- `none`: gate/arity combination outside the modelled fragment. -/
 def applyG : G → List Nat → List Bool → Option (List Bool)
   | .x, [q], qs | .y, [q], qs => some (flipAt qs q)
@@ -87,6 +100,17 @@ def applyG : G → List Nat → List Bool → Option (List Bool)
   | .swap, [a, b], qs => some ((qs.set a (qs.getD b false)).set b (qs.getD a false))
   | .kxcx, [a, b, c], qs => some (let q1 := flipAt qs a; if q1.getD b false then flipAt q1 c else q1)
   | .kcxx, [a, b, c], qs => some (let q1 := (if qs.getD a false then flipAt qs b else qs); flipAt q1 c)
+  | .inc2, [a, b], qs => some (incAt [b, a] qs)
+  | .inc3, [a, b, c], qs => some (incAt [c, b, a] qs)
+  | .inc4, [a, b, c, d], qs => some (incAt [d, c, b, a] qs)
+  | .cinc2, [k, a, b], qs => some (if qs.getD k false then incAt [b, a] qs else qs)
+  | .cinc3, [k, a, b, c], qs => some (if qs.getD k false then incAt [c, b, a] qs else qs)
+  | .kxinc2, [x, a, b], qs => some (incAt [b, a] (flipAt qs x))
+  | .kxinc3, [x, a, b, c], qs => some (incAt [c, b, a] (flipAt qs x))
+  | .kinc2x, [a, b, x], qs => some (flipAt (incAt [b, a] qs) x)
+  | .kinc3x, [a, b, c, x], qs => some (flipAt (incAt [c, b, a] qs) x)
+  | .compxinc3, [a, b, c, d], qs => some (incAt [a, c, b] (flipAt qs d))
+  | .loopinc3, [a, b, c], qs => some (incAt [b, a, c] (incAt [b, a, c] qs))
   | _, _, _ => none
 
 /-! ### one operation on one shot -/
